@@ -423,7 +423,13 @@ def run_phase(ctx, ph):
                 log(f"{name}: deviation kind(s) {sorted(k3)} reproduce only when the whole phase is executed again (they depend on earlier calls in the same process)")
                 k2 |= k3
         if not (k1 & k2):
-            raise Infra(f"{name}: deviation kind(s) {sorted(k1 - k2)} did not reproduce on re-execution: not reported (flaky)")
+            if race_log and library_races(race_log):
+                # answers that differ from run to run AND a data race between two accesses inside the library, reported by the race
+                # detector in the very run that produced them: the race is the (reproducible) finding, reported below
+                log(f"{name}: deviation kind(s) {sorted(k1 - k2)} did not reproduce on re-execution; the race detector reports a data race inside the library in the run that showed them")
+                bads = []
+            else:
+                raise Infra(f"{name}: deviation kind(s) {sorted(k1 - k2)} did not reproduce on re-execution: not reported (flaky)")
         if k1 - k2:
             log(f"{name}: deviation kind(s) {sorted(k1 - k2)} did not reproduce and are dropped; {len(k1 & k2)} kind(s) reproduced")
             bads = [b for b in bads if dev_key(b) in k2]
